@@ -64,6 +64,30 @@ var c13Modes = []negMode{
 	{"custom-only13-legacy12", "smax=0303 legacy=1 drop=v0303,v0302,v0301"},
 	{"custom-gap11-legacy11", "smax=0302 legacy=1 drop=v0302"},
 	{"custom-gap12-legacy12", "smax=0303 legacy=1 canary=off drop=v0303"},
+	// custom specs without supported_versions (the hello advertises spec minimum .. legacy_version)
+	{"nosv-10-12-legacy10", "drop=sv tmin=0301 tmax=0303 smax=0301 legacy=1"},
+	{"nosv-10-12-legacy11", "drop=sv tmin=0301 tmax=0303 smax=0302 legacy=1"},
+	{"nosv-10-12-legacy12", "drop=sv tmin=0301 tmax=0303 smax=0303 legacy=1"},
+	{"nosv-12-12-legacy11", "drop=sv tmin=0303 tmax=0303 smax=0302 legacy=1"},
+	{"nosv-11-12-max10", "drop=sv tmin=0302 tmax=0303 smax=0301"},
+	{"nosv-10-11-max12", "drop=sv tmin=0301 tmax=0302 smax=0303"},
+	// the caller pinned Config.MinVersion/MaxVersion (below / above / inside the spec range): the spec wins
+	{"pin-min10-nosv12-legacy11", "cmin=0301 drop=sv tmin=0303 tmax=0303 smax=0302 legacy=1"},
+	{"pin-min10-nosv12-legacy10", "cmin=0301 drop=sv tmin=0303 tmax=0303 smax=0301 legacy=1"},
+	{"pin-min10-max12-nosv12-max12", "cmin=0301 cmax=0303 drop=sv tmin=0303 tmax=0303 smax=0303"},
+	{"pin-min12-legacy11", "cmin=0303 smax=0302 legacy=1"},
+	{"pin-max12-max13", "cmax=0303 smax=0304"},
+	{"pin-13only-max12", "cmin=0304 cmax=0304 smax=0303"},
+	{"pin-min10-legacy10", "cmin=0301 cmax=0304 smax=0301 legacy=1"},
+	// the same *Config was used by an earlier connection with another id (UClient does not clone it)
+	{"reuse-ff102-nosv12-legacy11", "prev=Firefox-102 drop=sv tmin=0303 tmax=0303 smax=0302 legacy=1"},
+	{"reuse-ff102-legacy10", "prev=Firefox-102 smax=0301 legacy=1"},
+	{"reuse-chrome133-legacy11", "prev=Chrome-133 smax=0302 legacy=1"},
+	{"reuse-chrome58-max13", "prev=Chrome-58 smax=0304"},
+	// supported_versions removed from uconn.Extensions after BuildHandshakeState
+	{"edit-sv-max13", "smax=0304 edit=sv"},
+	{"edit-sv-sh13", "smax=0304 edit=sv rw=sh.sv.0304"},
+	{"edit-sv-legacy11", "smax=0302 legacy=1 edit=sv"},
 }
 
 // nullConn is a net.Conn that is never used for I/O (SetTLSVers needs a UConn, not a connection).
@@ -115,11 +139,19 @@ func c13SetVersGen(r *Rng, i int, tier string) string {
 	if r.Intn(10) == 0 {
 		ech = 1
 	}
-	return fmt.Sprintf("min=%04x max=%04x exts=%s ech=%d", mn, mx, joinList(exts), ech)
+	// what the Config held before the call (a caller-pinned bound, or a previous connection's range)
+	var c0min, c0max uint16
+	if r.Intn(2) == 0 {
+		c0min, c0max = versPool[r.Intn(6)], versPool[r.Intn(6)]
+	}
+	return fmt.Sprintf("min=%04x max=%04x exts=%s ech=%d cfg0=%04x,%04x", mn, mx, joinList(exts), ech, c0min, c0max)
 }
 
 func c13SetVersExec(in KV) string {
 	cfg := &tls.Config{ServerName: "example.golang"}
+	if c0 := splitList(in["cfg0"]); len(c0) == 2 {
+		cfg.MinVersion, cfg.MaxVersion = negHex16(c0[0]), negHex16(c0[1])
+	}
 	if in["ech"] == "1" {
 		cfg.EncryptedClientHelloConfigList = []byte{0}
 	}
